@@ -89,6 +89,9 @@ func uwSweep(seed uint64) []scen {
 		if off%7 == 0 {
 			add(off, "err", false) // transient
 		}
+		if off%5 == 0 {
+			add(off, "err-wrapeof", false) // transient, and looks like an end of file to errors.Is
+		}
 	}
 	// a stored byte flipped (one bit) anywhere in the compressed stream: the checksum in the
 	// gzip trailer exists to notice exactly that, so either Unpack fails or what it
